@@ -131,6 +131,20 @@ breaking('M3-no-sqrt', {'C11': 'M3'}, edit=[(M + 'sim/state.py', "q2[ind2] = q1[
 breaking('M3-roles-swapped', {'C11': 'M3'}, edit=[(M + 'sim/state.py', "    keep_dim = tuple(x for x,y in enumerate(z0) if y[0]==1)\n    reduce_dim = tuple(x for x,y in enumerate(z0) if y[0]==0)", "    keep_dim = tuple(x for x,y in enumerate(z0) if y[0]==0)\n    reduce_dim = tuple(x for x,y in enumerate(z0) if y[0]==1)")])
 breaking('AL1-shared-template', {'C19': 'AL1'}, edit=[(M + 'qec/_internal.py', "        for op0 in tmp0:\n            tmp1 = [numqi.gate.pauli.s0 for _ in range(num_qubit)]", "        identity = [numqi.gate.pauli.s0]*num_qubit\n        for op0 in tmp0:\n            tmp1 = identity")])
 breaking('Q6-padded-dimension', {'C19': 'Q6'}, edit=[(M + 'qec/_internal.py', "    num_logical_dim = code.shape[0]\n    num_logical_qubit = numqi.utils.hf_num_state_to_num_qubit(num_logical_dim, kind='ceil')\n    if 2**num_logical_qubit > num_logical_dim:\n        code = np.pad(code, [(0,2**num_logical_qubit-num_logical_dim),(0,0)], mode='constant', constant_values=0)\n", "    num_logical_qubit = numqi.utils.hf_num_state_to_num_qubit(code.shape[0], kind='ceil')\n    if 2**num_logical_qubit > code.shape[0]:\n        code = np.pad(code, [(0,2**num_logical_qubit-code.shape[0]),(0,0)], mode='constant', constant_values=0)\n    num_logical_dim = code.shape[0]\n")])
+breaking('refix-choi-probe-buffer', {'C12': 'AL2'}, patch_reverse='fix_56ef454.diff')
+breaking('A7-zero-after-backward', {'C04': 'A7'}, edit=[(M + 'optimize/_internal.py', "            for x in parameter_sorted:\n                if x.grad is not None:\n                    x.grad.zero_()\n            if hasattr(model, 'grad_backward'): #designed for custom automatic differentiation\n                model.grad_backward(loss)\n            else:\n                loss.backward() #if no .grad_backward() method, it should be a normal torch.nn.Module\n", "            if hasattr(model, 'grad_backward'): #designed for custom automatic differentiation\n                model.grad_backward(loss)\n            else:\n                loss.backward() #if no .grad_backward() method, it should be a normal torch.nn.Module\n            for x in parameter_sorted:\n                if x.grad is not None:\n                    x.grad.zero_()\n")])
+breaking('A8-dispatch-on-rho-only', {'C04': 'A8'}, edit=[(M + 'utils.py', "        if (rho.requires_grad or sigma.requires_grad) and (_torch_logm!='eigen'):", "        if rho.requires_grad and (_torch_logm!='eigen'):")])
+breaking('HM1-mT-reconstruction', {'C12': 'HM1'}, edit=[(M + 'utils.py', "log_sigma = (EVC * torch.log(torch.maximum(eps, EVL))) @ EVC.T.conj()", "log_sigma = (EVC * torch.log(torch.maximum(eps, EVL))) @ EVC.mT")])
+breaking('O3-cached-noise-channel', {'C12': 'O3'}, edit=[(M + 'channel/_internal.py', "import numpy as np\nimport torch\n", "import functools\nimport numpy as np\nimport torch\n"), (M + 'channel/_internal.py', "def hf_dephasing_kraus_op(noise_rate):", "@functools.lru_cache\ndef hf_dephasing_kraus_op(noise_rate):")])
+breaking('MD1-shared-history', {'C07': 'MD1'}, edit=[(M + 'sim/clifford.py', "    def __init__(self, seed=None):\n        self.gate_index_list = []", "    def __init__(self, seed=None, gate_index_list=[]):\n        self.gate_index_list = gate_index_list")])
+breaking('H3-unembedded-shortcut', {'C07': 'H3'}, edit=[(M + 'sim/clifford.py', "                tmpR = R0.copy()\n                tmpS = S0.copy()\n                tmpR[index] = tmp0[0]\n                tmpS[index[:,np.newaxis], index] = tmp0[1]", "                if len(index)==2*num_qubit:\n                    tmpR,tmpS = tmp0\n                else:\n                    tmpR = R0.copy()\n                    tmpS = S0.copy()\n                    tmpR[index] = tmp0[0]\n                    tmpS[index[:,np.newaxis], index] = tmp0[1]")])
+breaking('PU1-inplace-control-gate', {'C03': 'PU1'}, edit=[(M + 'sim/state.py', "    ret = q0.copy()\n    tmp0 = q0.reshape(shape0)[index_tuple0]", "    ret = q0.astype(np.result_type(q0.dtype, op.dtype), copy=False)\n    tmp0 = q0.reshape(shape0)[index_tuple0]")])
+breaking('IP1-forward-order', {'C03': 'IP1'}, edit=[(M + 'sim/state.py', "        for tmp0 in reversed(term_i):", "        for tmp0 in term_i:")])
+breaking('W6-batched-legs', {'C01': 'W6'}, edit=[(M + 'manifold/_compose.py', "ret = torch.einsum(ret, [5,0,1,2], ret.conj(), [5,0,3,4], [5,1,2,3,4])", "ret = torch.einsum(ret, [5,0,1,2], ret.conj(), [5,0,3,4], [5,1,4,3,2])")])
+breaking('K5-eigsh-default-which', {'C01': 'K5'}, edit=[(M + 'manifold/_internal.py', "scipy.sparse.linalg.eigsh(tmp3[x], k=1, which='LA', return_eigenvectors=False)", "scipy.sparse.linalg.eigsh(tmp3[x], k=1, return_eigenvectors=False)")])
+breaking('W5-spectrum-floor', {'C01': 'W5'}, edit=[(M + 'manifold/_stiefel.py', "            EVL,EVC = np.linalg.eigh(mat.transpose(0,2,1).conj() @ mat)\n", "            EVL,EVC = np.linalg.eigh(mat.transpose(0,2,1).conj() @ mat)\n            EVL = np.maximum(EVL, 1e-12)\n")])
+breaking('R1-position-ordered-legs', {'C04': 'R1'}, edit=[(M + 'sim/state.py', "        tmp4 = list(index) + list(range(num_qubit,num_qubit+len(index)))\n        op_grad = opt_einsum.contract(tmp0, tmp1, tmp2, tmp3, tmp4).reshape(op.shape)\n    else:\n        op_grad = None\n    q0_grad = apply_gate(q0_grad, op.T.conj(), index)", "        tmp4 = list(index) + [x for x in tmp3 if x>=num_qubit]\n        op_grad = opt_einsum.contract(tmp0, tmp1, tmp2, tmp3, tmp4).reshape(op.shape)\n    else:\n        op_grad = None\n    q0_grad = apply_gate(q0_grad, op.T.conj(), index)")])
+breaking('H5-cached-unitary', {'C03': 'H5'}, edit=[(M + 'sim/circuit.py', "        ret = ret.T.copy()\n        return ret", "        ret = ret.T.copy()\n        self._unitary_cache = ret\n        return self._unitary_cache")])
 breaking('refix-get_gme_2qubit', {'C13': 'F2', 'C05': 'F2'}, patch_reverse='fix_78cd862.diff')
 
 # ---- textual breaking edits, one per rule family
